@@ -233,7 +233,20 @@ def check_config(case):
     return {"nontrivial": "accept" in verdicts and len(set(verdicts)) > 1, "labels": labels, "count": count}
 
 
+def check_interrupted(case):
+    from props import C12
+    return C12.check_fault_then_call(case)
+
+
+def _interrupted_cases():
+    from props import C12
+    return C12._fault_cases()
+
+
 UNITS = [
+    Unit("interrupted", check_interrupted, strategy=_interrupted_cases, quick=160, thorough=2000, shards_quick=8,
+         doc="calls interrupted by an injected exception, then evaluated normally: an interrupted verification leaves nothing behind "
+             "that could count as a signer later"),
     Unit("config", check_config, strategy=_config_cases, quick=24, thorough=400, shards_quick=8, shrink=False,
          doc="soundness in fresh interpreters: -O, logging level, warnings filter, stdout encoding / closed stdout, discovered environment variables"),
     Unit("signable", check_signable, strategy=GE.envelopes, quick=1200, thorough=40000,
